@@ -292,8 +292,39 @@ def participations(per):
 
 
 def conform_traces(name, parts_):
-    traces = [(2 * p["n"] + (1 if p["wait"] else 0), p["events"]) for p in parts_]
-    return conc.coq_conform(name, ["Word", "Conc", "Gen_apply", "Apply"], "conform", traces)
+    """replay through Apply.tstep inside Coq, in groups of at most ~5000 events"""
+    out, group, size, gi = [], [], 0, 0
+    for p in parts_ + [None]:
+        if p is None or (group and size + len(p["events"]) > 5000):
+            traces = [(2 * q["n"] + (1 if q["wait"] else 0), q["events"]) for q in group]
+            out += conc.coq_conform("%s_%d" % (name, gi), ["Word", "Conc", "Gen_apply", "Apply"], "conform", traces, chunk=len(traces))
+            group, size, gi = [], 0, gi + 1
+        if p is not None:
+            group.append(p)
+            size += len(p["events"])
+    return out
+
+
+def select_traces(good, budget):
+    """rare shapes first (sleeping callers, slow-path wakes, participants without an index), then the rest, within an event budget"""
+    def rank(p):
+        ks = set(e.kind for e in p["events"])
+        r = 0
+        if 32 in ks: r -= 8
+        if 34 in ks: r -= 8
+        if 102 not in ks: r -= 4
+        if p["wait"]: r -= 2
+        if any(e.kind == 7 and e.off == 48 and e.a == 1 for e in p["events"]): r -= 1
+        return (r, len(p["events"]))
+    sel, used = [], 0
+    for p in sorted(good, key=rank):
+        if len(p["events"]) > 700:
+            continue
+        if used + len(p["events"]) > budget:
+            continue
+        sel.append(p)
+        used += len(p["events"])
+    return sel
 
 
 def analyse_stress(text, label):
@@ -358,7 +389,6 @@ def correspond(ctx):
             p["seed"] = seed
         allparts += ps
     good = [p for p in allparts if not p.get("truncated")]
-    dist["participations"] = len(good)
     dist["participations_truncated_by_end_of_recording"] = len(allparts) - len(good)
     dist["caller_participations"] = sum(1 for p in good if p["wait"])
     dist["helpers_without_index"] = sum(1 for p in good if not p["wait"] and not any(e.kind == 102 for e in p["events"]))
@@ -367,6 +397,9 @@ def correspond(ctx):
     dist["signal_slow_wakes"] = sum(1 for p in good for e in p["events"] if e.kind == 34)
     dist["caller_futex_waits"] = sum(1 for p in good for e in p["events"] if e.kind == 32)
     dist["record_frees_seen"] = sum(1 for p in good for e in p["events"] if e.kind == 7 and e.off == 48 and e.a == 1)
+    dist["participations_recorded"] = len(good)
+    good = select_traces(good, 40000 if quick else 400000)
+    dist["participations"] = len(good)
     if good:
         cres = conform_traces("c10_conf", good)
         for (i, fin), p in zip(cres, good):
